@@ -285,7 +285,7 @@ def body(chk):
                         'plug package ids are pairwise distinct and distinct from the socket', 'validity of the encoded result is observed on replayed witnesses only (C01 is not claimed)']
     fns = chk.load('wac-graph'); decls = chk.decls('wac-graph')
     if chk.quick: configs = [(1, [2], 2, 1), (2, [1, 1], 2, 1), (2, [2, 1], 1, 0)]
-    else: configs = [(1, [2], 2, 1), (1, [3], 2, 2), (2, [1, 1], 2, 1), (2, [2, 1], 2, 1), (2, [2, 2], 2, 1), (3, [1, 1, 1], 2, 1), (1, [2], 3, 1), (2, [1, 1], 3, 1)]
+    else: configs = [(1, [2], 2, 1), (1, [3], 2, 2), (2, [1, 1], 2, 1), (2, [2, 1], 2, 1), (2, [2, 2], 2, 1), (3, [1, 1, 1], 2, 1), (1, [2], 3, 1), (2, [1, 1], 3, 1), (4, [1, 1, 1, 1], 1, 1), (4, [1, 1, 1, 1], 2, 0)]
     chk.bounds['plug'] = {'configs (plugs, exports per plug, socket imports, socket exports)': [list(map(str, c)) for c in configs], 'names': 'abstract identities with semver track', 'types': 'abstract identities, `<:` uninterpreted'}
     chk.parallel([(f'plug {c}', part_plug, (fns, decls, [c])) for c in configs])
 
